@@ -62,6 +62,10 @@ package store
 //@   assigns nothing
 //@   ensures copy: result != nil && fresh(result) && result.Version == tx.header.Version && result.ID == tx.header.ID
 //@   &&   result.BlTxID == tx.header.BlTxID && result.NEntries == tx.header.NEntries
+//@   ensures c07_ts: result.Ts == tx.header.Ts
+//@   ensures c07_blroot: result.BlRoot == tx.header.BlRoot
+//@   ensures c07_prev: result.PrevAlh == tx.header.PrevAlh
+//@   ensures c07_eh: result.Eh == tx.header.Eh
 
 // LinearProof: what VerifyLinearProof demands of the proof object (ids, order, number of terms).
 //@ func (*ImmuStore).LinearProof
